@@ -1,6 +1,6 @@
 # C04 -- personal names are split into first / von / last / jr parts as BibTeX does.
 # Model: coq/Model/Names.v (+ Model/BibtexStr.v split_tex_string, scan); spec: coq/Spec/Names.v;
-# theorems: coq/Props/C04.v (proofs in coq/Proofs/Names.v, Proofs/NamesSplit.v)
+# theorems: coq/Props/C04.v (proofs in coq/Proofs/Names*.v)
 import itertools, random, json, os
 from core import *
 
@@ -50,12 +50,13 @@ TRUSTED_BASE = ['modelled (not verified) code: pybtex/database/__init__.py Perso
                 're objects through split_tex_string on the exhaustive character stream and a per-code-point sweep']
 ASSUMPTIONS = ['letter classes and case are modelled on ASCII (Base/PyChar.v); non-ASCII letters are outside the claimed domain (DESIGN.md 2.2)',
                'Python str.isspace / regex \\s = the 29 code points of Base/PyChar.is_space (re-measured on every run over all of Unicode)']
-PARTIAL = ['token_case_rule holds only for tokens without a backslash at brace level 1 other than directly after the opening brace '
+PARTIAL = ['token_case_rule holds only for tokens without a backslash at brace level 1 (outside special characters) before the deciding character '
            '(token_case_rule_partial); for the others the code deviates from the property text (token_case_rule_refuted, finding FC04a)',
-           'more than 100 nested braces in a token that does not start with a letter make Person() raise BibTeXError (a pybtex error): '
-           'parse_name_total says "no foreign exception, no divergence", parse_name_ok gives success for nesting depth <= 100',
-           'the tie between split_tex_string and the brace-level tokenizer of the property text is proved for the model only for strings whose braces are '
-           'all closed (unclosed groups are split by the code at inner braces; the oracle then only demands conservation of characters)']
+           'more than 100 nested braces in a token that does not start with a letter make Person() raise BibTeXError (a pybtex error, parse_name_guard): '
+           'parse_name_total says "no foreign exception, no divergence" for every string, parse_name_ok gives success for every string with <= 100 opening braces',
+           'that split_tex_string splits exactly at the brace-level-0 separators is NOT proved for the model (proved: only separator characters are dropped '
+           '(chars_preserved), braced groups are never split (braced_groups_atomic)); it is checked by the oracle with an independent tokenizer on every generated '
+           'string whose braces are all closed; for strings with an unclosed group the code splits at inner braces and the oracle only demands conservation of characters']
 
 def describe(fn, a):
     return {'function': FUNCS[fn][0], 'args': [S(x) for x in a]}
